@@ -40,6 +40,13 @@ def weak_orderings(symbols):
     return out
 
 
+class ListVal:
+    """A Python list of evaluated values built up by the interpreted body (`xs = []`, `xs.append(v)`)."""
+
+    def __init__(self, items=()):
+        self.items = list(items)
+
+
 class CellEval:
     def __init__(self, cell, sym_of, apply=None, env=None):
         """cell: symbol -> rank.  sym_of(node) -> symbol name or None.
@@ -97,6 +104,12 @@ class CellEval:
         if isinstance(node, ast.Call):
             fn = node.func
             name = fn.id if isinstance(fn, ast.Name) else (fn.attr if isinstance(fn, ast.Attribute) else None)
+            if name in ("sum", "fsum") and len(node.args) == 1 and isinstance(node.args[0], ast.Name) \
+                    and isinstance(self.env.get(node.args[0].id), ListVal):
+                tot = Poly.const(0)
+                for v in self.env[node.args[0].id].items:
+                    tot = tot + v
+                return tot
             if name in ("min", "max", "minimum", "maximum") and len(node.args) == 2 and not node.keywords:
                 a, b = self.eval(node.args[0]), self.eval(node.args[1])
                 lt = self.compare("<", a, b)
@@ -178,6 +191,18 @@ class CellExec:
                 self._block(st.body if ev.test(st.test) else st.orelse)
             elif isinstance(st, ast.Assert):
                 self.asserts.append((st, ev.test(st.test)))
+            elif isinstance(st, ast.Assign) and len(st.targets) == 1 and isinstance(st.targets[0], ast.Name) \
+                    and isinstance(st.value, (ast.List, ast.Tuple)):
+                ev.env[st.targets[0].id] = ListVal([ev.eval(e) for e in st.value.elts])
+            elif isinstance(st, ast.Expr) and isinstance(st.value, ast.Call) and isinstance(st.value.func, ast.Attribute) \
+                    and st.value.func.attr == "append" and isinstance(st.value.func.value, ast.Name) \
+                    and isinstance(ev.env.get(st.value.func.value.id), ListVal) and len(st.value.args) == 1:
+                ev.env[st.value.func.value.id].items.append(ev.eval(st.value.args[0]))
+            elif isinstance(st, ast.For) and isinstance(st.iter, ast.Name) and isinstance(ev.env.get(st.iter.id), ListVal) \
+                    and isinstance(st.target, ast.Name) and not st.orelse:
+                for v in list(ev.env[st.iter.id].items):
+                    ev.env[st.target.id] = v
+                    self._block(st.body)
             elif isinstance(st, ast.Assign) and len(st.targets) == 1:
                 tg = st.targets[0]
                 if isinstance(tg, ast.Name):
